@@ -311,6 +311,8 @@ type zzEvent struct {
 
 type zzParser struct{ events []zzEvent }
 
+var zzFirstGenerated int // len(parser.events) when the symbolic events start
+
 var zzNames = []string{OperatorAdded, OperatorRemoved, ValidatorAdded, ValidatorRemoved, ClusterLiquidated, ClusterReactivated, FeeRecipientAddressUpdated, ValidatorExited}
 
 func (p *zzParser) ev(l ethtypes.Log) *zzEvent { return &p.events[int(l.Topics[0][1])] }
@@ -500,7 +502,12 @@ var zzIDLists = [][]uint64{
 
 // zzGenEvent builds one symbolic registry event, appends it to the parser table and returns its log.
 func zzGenEvent(p *zzParser, ref *zzRef, kindsAllowed int) ethtypes.Log {
-	kind := zzChoose("evkind", kindsAllowed)
+	kind := 0
+	if k0 := int(zzParam("KIND0")); k0 > 0 && len(p.events) == zzFirstGenerated {
+		kind = k0 - 1 // the first generated event's kind is fixed by the run (splits the exploration across processes)
+	} else {
+		kind = zzChoose("evkind", kindsAllowed)
+	}
 	owner := zzOwnerA
 	if zzNondetBool("ownerB") {
 		owner = zzOwnerB
@@ -514,7 +521,12 @@ func zzGenEvent(p *zzParser, ref *zzRef, kindsAllowed int) ethtypes.Log {
 		// exactly one deviation from a well-formed registration (0 = none):
 		//  1-4 other operator lists | 5 wrong shares length | 6 signed for a future nonce | 7 replayed nonce |
 		//  8 signed for the other owner | 9 invalid signature | 10 own key undecryptable | 11 own key mismatching
-		mut := zzChoose("va-deviation", 12)
+		mut := 0
+		if ds := int(zzParam("DEVSET")); ds > 0 && len(p.events) == zzFirstGenerated {
+			mut = (ds-1)*4 + zzChoose("va-deviation", 4) // the run fixes which third of the deviations the first event uses
+		} else {
+			mut = zzChoose("va-deviation", 12)
+		}
 		ids := zzIDLists[0]
 		if mut >= 1 && mut <= 4 {
 			ids = zzIDLists[mut]
@@ -785,6 +797,7 @@ func ZZHarnessRegistry() {
 	k := int(zzParam("K"))
 	nd, ref, block := zzSetup(zzParam("PRE") == 1)
 	zzCompare(nd, ref, "setup")
+	zzFirstGenerated = len(nd.parser.events)
 	var pending []ethtypes.Log
 	var pendingEv []int
 	for i := 0; i < k; i++ {
@@ -820,6 +833,7 @@ func ZZHarnessCrash() {
 	k := int(zzParam("K"))
 	nd, ref, block := zzSetup(zzParam("PRE") == 1)
 	var logs []ethtypes.Log
+	zzFirstGenerated = len(nd.parser.events)
 	for i := 0; i < k; i++ {
 		logs = append(logs, zzGenEvent(nd.parser, ref, int(zzParam("KINDS"))))
 		ref.apply(&nd.parser.events[len(nd.parser.events)-1])
